@@ -47,6 +47,7 @@ func init() {
 			{ID: "C10-R23", Title: "watcher and halt flag are per run: a VM that stops does not halt another (shared with C06-R4)", Floor: 3, Run: func(c *core.Ctx) { watcherRules(c, "C10") }},
 			{ID: "C10-R24", Title: "a select case returns the error of the context it waited for", Floor: 1, Run: aCaseReturnsTheErrorOfTheContextItWaitedFor},
 			{ID: "C10-R25", Title: "a clone gets each table from the table of the same name", Floor: 1, Run: aCloneGetsEachTableFromTheSameTable},
+			{ID: "C10-R26", Title: "a clone has the configuration of its original", Floor: 3, Run: aCloneHasTheConfigurationOfItsOriginal},
 		},
 	})
 }
